@@ -283,6 +283,18 @@ def run_steps(prog, steps, prof, nss, funcs, on_snapshot, on_add=None):
             prof.add_function(byname[st[1]])
             if on_add:
                 on_add(byname[st[1]])
+        elif op == 'add_module':
+            # the functions defined in one file, registered the way `kernprof -p module` / `%lprun -m` do: LineProfiler.add_module
+            import types
+            own = {k: v for k, v in nss[st[1]].items() if isinstance(v, types.FunctionType) and v.__code__.co_filename == st[1]}
+            if hasattr(prof, 'add_module') and not isinstance(prof, Recorder):
+                prof.add_module(types.SimpleNamespace(**own))
+                for f in own.values():
+                    if on_add:
+                        on_add(f)
+            else:
+                for f in own.values():
+                    prof.add_function(f)
         elif op == 'decorate':
             old = byname[st[1]]
             new = prof(old)
